@@ -1,0 +1,20 @@
+//go:build verif
+
+package rtsp
+
+// VerifSetServerCommandSessionWriteChanSize sets the capacity of the asynchronous write queue of
+// every ServerCommandSession created afterwards and returns the previous value (verification
+// harness in /verif only).
+func VerifSetServerCommandSessionWriteChanSize(n int) (old int) {
+	old = serverCommandSessionWriteChanSize
+	serverCommandSessionWriteChanSize = n
+	return old
+}
+
+// VerifServerCommandSessionWriteChanSize exposes the unexported default.
+func VerifServerCommandSessionWriteChanSize() int { return serverCommandSessionWriteChanSize }
+
+// VerifPackInterleaved exposes packInterleaved (RTSP interleaved binary data framing).
+func VerifPackInterleaved(channel int, rtpPacket []byte) []byte {
+	return packInterleaved(channel, rtpPacket)
+}
